@@ -21,7 +21,8 @@ def parseDepths (s : String) : Option Depths :=
 
 def parseCls : String → Option Cls
   | "ok" => some .ok | "err" => some .err | "cerr" => some .cerr
-  | "panic" => some .panic | "dead" => some .dead | _ => none
+  | "panic" => some .panic | "dead" => some .dead
+  | "timeout" => some .timeout | "skipped" => some .skipped | _ => none
 
 /-- `<cls>:<depths>:<val>` (the value may itself contain colons). -/
 def parseObs (fields : List String) : Option Obs :=
